@@ -21,15 +21,26 @@ theorem kaSleep_one (j : Int) (h5 : 5 ≤ j) : kaSleep 1 j = 1 := by
   unfold kaSleep
   omega
 
+theorem kaSleepT_ge2 (u L j : Int) (hL : 2 ≤ L) : kaSleepT u L j = kaSleep L j * u := by
+  unfold kaSleepT
+  rw [if_pos (by omega)]
+
+theorem kaSleepT_one (u j : Int) : kaSleepT u 1 j = u / 2 := by
+  unfold kaSleepT
+  rw [if_neg (by omega), if_pos (by omega), Int.one_mul]
+
+/-- the margin in ticks: `min(5, L−1)` seconds for `L ≥ 2`, the other half second for `L = 1`. -/
+def marginT (u L : Int) : Int := if 2 ≤ L then margin L * u else u - u / 2
+
 /-- One round of the pinger. The record built at `t` (lastseen = `t`) reaches the server `a` ticks
-    later; the whole `touch()` call takes `lat ≥ a`; then the pinger sleeps `kaSleep L jitter` seconds. -/
+    later; the whole `touch()` call takes `lat ≥ a`; then the pinger sleeps `kaSleepT` ticks. -/
 structure Round where
   lat : Int
   a : Int
   jitter : Int
 
 /-- when the next record is built -/
-def nextTouch (u L : Int) (t : Int) (r : Round) : Int := t + r.lat + kaSleep L r.jitter * u
+def nextTouch (u L : Int) (t : Int) (r : Round) : Int := t + r.lat + kaSleepT u L r.jitter
 
 /-- every next record reaches the server strictly before the deadline of the one it replaces. -/
 def Renewed (u L : Int) : Int → List Round → Prop
@@ -37,7 +48,7 @@ def Renewed (u L : Int) : Int → List Round → Prop
   | _, [_] => True
   | t, r :: r' :: rs => nextTouch u L t r + r'.a < t + L * u ∧ Renewed u L (nextTouch u L t r) (r' :: rs)
 
-theorem renewed_of_bounds (u L B : Int) (hu : 0 < u) (hL : 2 ≤ L) (hB : 2 * B < margin L * u) :
+theorem renewed_of_bounds (u L B : Int) (hu : 0 < u) (hL : 1 ≤ L) (hB : 2 * B < marginT u L) :
     ∀ (rs : List Round) (t : Int),
       (∀ r ∈ rs, 0 ≤ r.a ∧ r.a ≤ r.lat ∧ r.lat ≤ B ∧ 5 ≤ r.jitter ∧ r.jitter ≤ 10) → Renewed u L t rs := by
   intro rs
@@ -51,11 +62,20 @@ theorem renewed_of_bounds (u L B : Int) (hu : 0 < u) (hL : 2 ≤ L) (hB : 2 * B 
       refine ⟨?_, ih _ (fun x hx => h x (List.mem_cons_of_mem _ hx))⟩
       obtain ⟨_, _, hl, hj, _⟩ := h r List.mem_cons_self
       obtain ⟨_, ha', hl', _, _⟩ := h r' (List.mem_cons_of_mem _ List.mem_cons_self)
-      have h1 : kaSleep L r.jitter * u ≤ (L - margin L) * u :=
-        Int.mul_le_mul_of_nonneg_right (kaSleep_le L r.jitter hL hj) (Int.le_of_lt hu)
-      rw [Int.sub_mul] at h1
       unfold nextTouch
-      omega
+      by_cases h2 : 2 ≤ L
+      · have h1 : kaSleep L r.jitter * u ≤ (L - margin L) * u :=
+          Int.mul_le_mul_of_nonneg_right (kaSleep_le L r.jitter h2 hj) (Int.le_of_lt hu)
+        rw [Int.sub_mul] at h1
+        rw [kaSleepT_ge2 u L r.jitter h2]
+        simp only [marginT, h2, if_true] at hB
+        omega
+      · have hL1 : L = 1 := by omega
+        subst hL1
+        rw [kaSleepT_one]
+        simp only [marginT] at hB
+        rw [if_neg (by omega)] at hB
+        omega
 
 /-! ### status patches -/
 
@@ -117,7 +137,7 @@ theorem touchVal_pos {u prio L : Int} {now : Int} (hu : 0 < u) (hL : 1 ≤ L) :
 /-- what a successful `exit a` does. -/
 theorem exit_spec {u : Int} {s s1 : State} {a : Identity} (h : step u s (.exit a) = some s1) :
     ∃ o, s.ops a = some o ∧ o.alive = true ∧ s1.now = s.now ∧ s1.status = s.status.erase a ∧
-      s1.ops = updOp s.ops a { o with alive := false } := by
+      s1.ops = updOp s.ops a { o with alive := false, sleeping := false } := by
   simp only [step] at h
   cases hk : s.ops a with
   | none => simp [hk] at h
